@@ -110,9 +110,10 @@ pub fn variant_name(kind: Kind, v: u8) -> &'static str {
         Kind::Gtf => ["lines", "record_bufs"][(v % 2) as usize],
         Kind::Bed => "read_record",
         Kind::Bgzf => ["read_to_end", "read-777", "fill_buf"][(v % 3) as usize],
-        Kind::Bam => ["records", "record_bufs", "read_record+positions"][(v % 3) as usize],
+        Kind::Bam => ["records", "record_bufs", "read_record+positions", "util-facade"][(v % 4) as usize],
+        Kind::Sam | Kind::SamGz | Kind::Vcf | Kind::VcfGz | Kind::Bcf => ["records", "record_bufs", "util-facade"][(v % 3) as usize],
         Kind::Bai | Kind::Csi | Kind::Tabix | Kind::Gzi | Kind::Fai | Kind::Crai => "read_index",
-        Kind::Cram => ["records", "read_container+slices"][(v % 2) as usize],
+        Kind::Cram => ["records", "read_container+slices", "util-facade"][(v % 3) as usize],
         _ => ["records", "record_bufs"][(v % 2) as usize],
     }
 }
@@ -146,7 +147,10 @@ impl Kind {
     /// number of reading-protocol variants (lazy/buf records, ...)
     pub fn variants(self) -> u8 {
         match self {
-            Kind::Bgzf | Kind::Bam | Kind::Fasta | Kind::Gff => 3,
+            Kind::Bam => 4,
+            Kind::Bgzf | Kind::Fasta | Kind::Gff => 3,
+            // records / record_bufs / the noodles-util facade reader
+            Kind::Sam | Kind::SamGz | Kind::Vcf | Kind::VcfGz | Kind::Bcf | Kind::Cram => 3,
             Kind::Bed | Kind::Bai | Kind::Csi | Kind::Tabix | Kind::Gzi | Kind::Fai | Kind::Crai => 1,
             _ => 2,
         }
@@ -635,9 +639,14 @@ pub fn read(kind: Kind, variant: u8, src: Source) -> Obs {
                 items.push(format!("P|{}", u64::from(r.virtual_position())));
                 Ok(())
             }
+            _ if is_util_variant(kind, variant) => match kind {
+                Kind::Vcf | Kind::VcfGz | Kind::Bcf => variant::read_util_variant(src, items),
+                Kind::Cram => align::read_util_alignment(src, Some(cram::repository(&cram_refs())), items),
+                _ => align::read_util_alignment(src, None, items),
+            },
             Kind::Sam => align::read_sam(src, mode(variant), items),
             Kind::SamGz => align::read_samgz(src, mode(variant), items),
-            Kind::Bam => match variant % 3 {
+            Kind::Bam => match variant % 4 {
                 2 => align::read_bam_positions(src, items),
                 v => align::read_bam(src, mode(v), items),
             },
@@ -660,6 +669,15 @@ pub fn read(kind: Kind, variant: u8, src: Source) -> Obs {
             Kind::Crai => index::read_crai(src.into_read(), items),
         }
     })
+}
+
+/// Is this reading variant the noodles-util facade reader (sync only)?
+pub fn is_util_variant(kind: Kind, variant: u8) -> bool {
+    match kind {
+        Kind::Bam => variant % 4 == 3,
+        Kind::Sam | Kind::SamGz | Kind::Vcf | Kind::VcfGz | Kind::Bcf | Kind::Cram => variant % 3 == 2,
+        _ => false,
+    }
 }
 
 fn mode(variant: u8) -> align::Mode {
